@@ -74,6 +74,10 @@ def bootstrap(spec):
         sys.meta_path.insert(0, _Finder)
     import pendulum  # noqa: F401
 
+    if spec.get("decimal_prec") and not spec.get("suite"):
+        import decimal
+
+        decimal.getcontext().prec = spec["decimal_prec"]
     if spec.get("week_start") is not None and not spec.get("suite"):
         pendulum.week_starts_at(pendulum.WeekDay(spec["week_start"]))
         pendulum.week_ends_at(pendulum.WeekDay((spec["week_start"] - 1) % 7))
